@@ -87,7 +87,7 @@ def gen_session(rng, maxlen: int) -> dict:
     n = rng.randrange(1, maxlen)
     t, L, A = tS, tR, tS
     over, nka = False, 0
-    out_rate = rng.choice([0.0, 0.0, 0.15, 0.5, 1.0])
+    out_rate = rng.choice([0.0, 0.0, 0.0, 0.1, 0.3, 0.6])
     polls: list[list] = []
     quiet_after = rng.randrange(0, n + 1)
     off = [-1001, -1000, -999, -2, -1, 0, 1, 2, 999, 1000, 1001]
@@ -138,7 +138,7 @@ def gen_session(rng, maxlen: int) -> dict:
                 kind = rng.choice(['refresh', 'operational', 'open', 'notification'])
         if H and rng.random() < out_rate:
             # ExaBGP writes something itself between two iterations (most often just before a KEEPALIVE is due)
-            for _ in range(rng.choice([1, 1, 1, 2, 5])):
+            for _ in range(rng.choice([1, 1, 1, 2, 3])):
                 polls.append([max(t - rng.choice([0, 1, 50]), polls[-1][0] if polls else tS), rng.choice(OUT[:2] if rng.random() < 0.8 else OUT)])
         polls.append([t, kind])
         # steering only: once the session must be over, one more iteration and stop
